@@ -12,6 +12,8 @@ CONSTANTS
   Steps <- MCSteps
   Algo = "lstsq"
   Garbage = 1000
+  Acts = {"setitem"}
+  GivenSets <- NoGiven
   Record = FALSE
   Temps = {200, 1000}
 INVARIANT AlwaysFresh
